@@ -10,7 +10,7 @@ import math
 import numpy as np
 
 from ..core import import_library
-from ..probe import Probe, Reach
+from ..probe import Probe, Reach, check_unmutated, snapshot_arrays
 
 WORKERS = {"quick": 1, "thorough": 16}
 
@@ -34,11 +34,12 @@ class HedgeMonitor:
 
     def install(self, probe):
         for h, cname in CLASSES.items():
-            probe.wrap(getattr(self.fl, cname), "hedge", after=self._after(h))
+            probe.wrap(getattr(self.fl, cname), "hedge", before=snapshot_arrays, after=self._after(h))
 
     def _after(self, h):
         def after(args, kwargs, token, result, exc):
-            self.judge(h, args[1], result, exc)
+            x = check_unmutated(self.ctx, f"{h}: hedge", args, token)
+            self.judge(h, x, result, exc)
 
         return after
 
@@ -185,13 +186,26 @@ def run(ctx):
                 H[h].hedge(X[: (X.size // 6) * 6].reshape(6, -1))
             inverse_pairs(ctx, fl, X)
             ctx.sample("random", {"x": xs[:5], "extremely": H["extremely"].hedge(np.array(xs[:5]))})
+        # the same hedge instance given the same array object again after the array was refilled in place (stale results, aliasing)
+        for i, rnd in ctx.cases("reuse", ctx.scale(40, 800)):
+            buf = np.array([rnd.random() for _ in range(rnd.choice([1, 5, 64]))])
+            for h in names:
+                hedge = H[h]
+                for _ in range(3):
+                    r1 = hedge.hedge(buf)
+                    keep = np.array(r1, copy=True)
+                    buf[:] = [rnd.choice([0.0, 1.0, 0.5, rnd.random()]) for _ in range(buf.size)]
+                    ctx.hit("event:buffer refilled in place")
+                    if not np.array_equal(np.asarray(r1), keep) and h != "any":
+                        ctx.violation(f"{h}: a returned result changes when the argument array is later modified (aliases its argument)", {"hedge": h}, keep, r1)
+                hedge.hedge(buf)
         mon.check_relations()
         probe.report(ctx)
         reach.report(ctx)
     ctx.exhaustive = True
     ctx.extra["exhaustive_space"] = f"all x = k/2^{m}, k = 0..2^{m}, for each of the 6 hedges (plus non-exhaustive random doubles)"
     for h in names:
-        ctx.require(f"hook:{CLASSES[h]}.hedge")
+        ctx.require(f"hook:{CLASSES[h]}.hedge", "event:buffer refilled in place")
     for h in ("extremely", "seldom"):
         for p in ("x<0.5", "x==0.5", "x>0.5"):
             ctx.require(f"piece:{h}:{p}")
